@@ -200,6 +200,13 @@ Seps == {"none", "blank"} \cup (IF InQuote THEN {"blankc"} ELSE {})
 IsBlank(sep) == sep \in {"blank", "blankc"}
 SepLines(sep) == IF IsBlank(sep) THEN <<BlankOf(open, sep)>> ELSE << >>
 
+(* tag "title-like-word-after-definition": text that directly follows a link reference definition and begins with a word
+   that would read as the definition's title if it stood alone on its line - ( " or ' first.  As typed it is text (more
+   words follow on the line); a reflow may leave it alone on a line.  C10 sets this class aside ("prose words that cannot
+   be mistaken for block markers at the start of a line"). *)
+TitleLike(sep, l1) == IF sep = "none" /\ last.inner = "def" /\ l1 # << >> /\ SubSeq(LineSrc(l1), 1, 1) \in {"(", "\"", "'"}
+                      THEN {"title-like-word-after-definition"} ELSE {}
+
 (* tag "nc": the document uses a spelling the Markdown renderer does not write itself (it is not in the renderer's normal form) *)
 NcIf(c) == IF c THEN {"nc"} ELSE {}
 NcSep(sep) == NcIf(sep = "blank" /\ InQuote)
@@ -279,7 +286,7 @@ TypePara ==
           /\ Leaf("para", "para", sep, Node("Paragraph", Parent, 0, 0, tx, ""), lines, keep)
           /\ tags' = tags \cup (IF keep < Depth THEN {"lazy-continuation"} ELSE {}) \cup LazyTag(sep)
                           \cup (IF keep < Depth /\ KF_LazyIndented(keep, ind) THEN {"lazy-after-indented-quote-content"} ELSE {})
-                          \cup NcIf(ind > 0 \/ keep < Depth) \cup NcSep(sep)
+                          \cup NcIf(ind > 0 \/ keep < Depth) \cup NcSep(sep) \cup TitleLike(sep, l1)
 
 TypeAtx ==
     \E sep \in Seps, v \in Variants :
@@ -301,7 +308,7 @@ TypeSetext ==
            l1 == LineAt(v) IN
        /\ Leaf("setext", "setext", sep, Node("SetextHeading", Parent, 0, lv, <<[atoms |-> l1, hard |-> FALSE]>>, ""),
                <<LineSrc(l1), SubSeq(IF lv = 1 THEN "===" ELSE "---", 1, ul)>>, Depth)
-       /\ tags' = tags \cup (IF InQuote THEN {"setext-in-quote"} ELSE {}) \cup LazyTag(sep) \cup NcSep(sep)
+       /\ tags' = tags \cup (IF InQuote THEN {"setext-in-quote"} ELSE {}) \cup LazyTag(sep) \cup NcSep(sep) \cup TitleLike(sep, l1)
 
 (* a thematic break; "---" cannot follow paragraph text directly (it would be a setext underline), and on the first
    line of a bullet item the characters of the marker would merge with it *)
